@@ -272,7 +272,7 @@ def unit(u):
 
 
 def select(tier):
-    specs = U.universe(tier if tier == "quick" else "quick", ("F1", "F2", "F3", "F4", "F5"))
+    specs = U.universe(tier if tier == "quick" else "quick", ("F1", "F2", "F3", "F4", "F5", "F7"))
     f1 = [s for s in specs if s["tag"].startswith("F1")]
     f2 = [s for s in specs if s["tag"].startswith("F2")]
     rest = [s for s in specs if s["tag"][:2] in ("F3", "F4") and U.n_assignments(s) <= 20000]
